@@ -41,7 +41,7 @@ Definition lcg (seed len : Z) : list N := lcg_bytes (Z.to_nat len) (N.land (Z.to
 Fixpoint toy_go (mul : N) (key b : list N) (bs i n : nat) : list N :=
   match n with
   | O => []
-  | S k => ((mul * nth i b 0 + nth (i mod (length key)) key 0 + nth ((i + 1) mod bs) b 0 + N.of_nat i) mod 256)%N
+  | S k => N.land (mul * nth i b 0 + nth (i mod (length key)) key 0 + nth ((i + 1) mod bs) b 0 + N.of_nat i)%N 255
            :: toy_go mul key b bs (S i) k
   end.
 Definition toy (bs : nat) (mul : N) (key : list N) (b : list N) : list N := toy_go mul key b bs 0 bs.
